@@ -585,7 +585,6 @@ func (vfs *OrefaFS) Open(name string) (avfs.File, error) {
 func (vfs *OrefaFS) OpenFile(name string, flag int, perm fs.FileMode) (avfs.File, error) {
 	const op = "open"
 
-	at := int64(0)
 	om := avfs.ToOpenMode(flag)
 
 	absPath := vfs.absKey(name)
@@ -645,10 +644,6 @@ func (vfs *OrefaFS) OpenFile(name string, flag int, perm fs.FileMode) (avfs.File
 			child.truncate(0)
 			child.mu.Unlock()
 		}
-
-		if om&avfs.OpenAppend != 0 {
-			at = child.Size()
-		}
 	}
 
 	f := &OrefaFile{
@@ -656,7 +651,6 @@ func (vfs *OrefaFS) OpenFile(name string, flag int, perm fs.FileMode) (avfs.File
 		nd:       child,
 		openMode: om,
 		name:     name,
-		at:       at,
 	}
 
 	return f, nil
